@@ -69,6 +69,19 @@ NEEDS = {
  "c08-grapheme-filter-buffer-in-sentence": "ConcatGraphemeClustersFilter on a text with a multi-character cluster at index i, later the filter again on a longer text where the predictor puts a boundary at i",
  "c20-wsconst-dedup-by-discriminant": "two different character-type --wsconst values next to each other and a boundary the dropped filter would remove",
  "c20-line-cache-stale-index-after-4096": "one predict process: a line, then more than 4096 distinct lines, then the first line again",
+ "c05-tags_tmp-dirty-after-failed-update": "a failed update_tokenized / update_partial_annotation whose error is detected after at least one character was scanned, then (possibly after update_raw calls) a successful tagged update_tokenized / update_partial_annotation on the same object",
+ "c05-update_raw-same-text-skips-parse_raw": "update_raw(t) on a sentence that already holds exactly text t with boundaries that are not all Unknown, observed before the next predict",
+ "c08-tag_scores-cleared-only-if-storing-two-predictors": "predict + fill_tags with a score-storing predictor on an N-character text, update_raw with a longer text, then predict + fill_tags with a non-storing tagging predictor where a known token ends at index >= N",
+ "c08-update_raw-same-text-keeps-tags": "the object carries tags for text x, then update_raw(x) with the identical text, then predict without a tag fill that re-initialises tags",
+ "c08-repeat-memo-record-without-recheck": "one predictor shared by >= 2 threads: A predicts the same text X twice in a row, B starts predicting a different text Y while A's second call is inside the scorers; any later predict(Y) restores X's scores",
+ "c07-block-writer-retry-restarts-block": "a writer that accepts part of a block (short write) and returns ErrorKind::Interrupted on a later call within the same flush",
+ "c07-decode-eof-before-tag_models": "a file truncated exactly at the boundary before the tag_models vector (read and read_slice)",
+ "c17-dump_items-first-output-any-state": "a KyTea trie in which a non-entry state carries suffix outputs (fourth variant)",
+ "c17-subword-dict-entries-skipped": "a KyTea file with a non-empty sub-word dictionary, truncated inside that section's entry list",
+ "c20-predict-wsconst-bitmask-filter": "predict with two or more different --wsconst character types and a predicted boundary between adjacent characters of two selected types",
+ "c20-read_line-pops-lone-trailing-cr": "predict: an unterminated last input line that ends in CR (stream ends with byte 0x0D)",
+ "c20-evaluate-stale-last-word-tags": "evaluate --metric word: a reference line shorter than some earlier line whose last-word tag comparison has the other outcome (tag error on the long line's last word, or tagged long line then untagged short line)",
+ "c20-evaluate-fill_tags-before-wsconst-streaming": "evaluate --metric word --predict-tags --wsconst X: the filter merges two predicted words and the merged word's tags differ from its last piece's",
 }
 res = {}
 p = "/verif/seeded/results.tsv"
